@@ -21,6 +21,9 @@ Judge(r) ==
        \cup (IF r.delivered = <<r.seq + 1>> THEN {}
              ELSE IF r.rb >= 0 THEN {<<"C08", "after a rollback an event at or below the position already reached was shown again (or the first new one was not)">>}
              ELSE {<<"C03", "the first event after the resume point was not delivered exactly once">>})
+       \* offsets issued after the rollback carry the vBucket's current branch: the head of the failover log that came with the accepting answer
+       \cup (IF r.rb >= 0 /\ r.delivered # <<>> /\ r.duuid # r.log[1][1]
+             THEN {<<"C08", "after a rollback the offsets do not carry the vbUUID of the vBucket's current history branch">>} ELSE {})
   ELSE IF r.kind = "FID" THEN
        (IF r.req = r.want THEN {} ELSE {<<"C02", "a 64-bit field of the stored offset is altered in the stream request">>})
        \cup (IF r.cb = r.want4 THEN {} ELSE {<<"C02", "save + load through the Couchbase metadata backend alters a 64-bit field">>,
